@@ -715,6 +715,8 @@ def case_terms(case, idx, mode, om):
         terms.append("show3 %s %s p%d m%d t%d ma%d tb%d %s %s %s %s" % (
             mode, om, idx, idx, idx, idx, idx, common.coq_bool(bool(s["wrap"] or s["comp"])),
             flist_coq(s["q"]), flist_coq(s["att"]), flist_coq(s["comp"])))
+    for g in case.get("gets", []):          # all_versions(id) with attached filters, after the queries
+        terms.append("show_av %s %s p%d m%d t%d (vs %s) %s" % (mode, om, idx, idx, idx, cs(g["id"]), flist_coq(g["att"])))
     return defs, terms
 
 
@@ -1077,7 +1079,21 @@ def same_line(route, g, m):
     return (pg[0] == pm[0]) and (pg[1] == pm[1])
 
 
-def compare(case, impl, model, dis, improved):
+def compare_gets(case, impl, model, dis):
+    """all_versions(id) with attached filters: memory exactly, filesystem as a multiset."""
+    n = 0
+    nq = len(case["queries"])
+    for g, got, mod in zip(case["gets"], impl.get("gets", []), model[nq:]):
+        for route, mline in (("mo", mod[0]), ("fs", mod[1])):
+            n += 1
+            line = got[route][1]
+            if not same_line(route, line, mline):
+                dis.append({"route": route + ".all_versions", "get": g, "impl": line[:400], "model": mline[:400],
+                            "pop": [to_json(o["tree"]) for o in case["pop"]], "split": case["split"]})
+    return n
+
+
+def compare(case, impl, model, dis, improved, scan_raises):
     """Correspondence: memory routes exactly (order included), filesystem routes as multisets."""
     n = 0
     vals = None
@@ -1099,6 +1115,13 @@ def compare(case, impl, model, dis, improved):
                 pg, pm = parse_line(g), parse_line(m)
                 if expect is not None and pg[0] == "OK" and pg[1] == expect and not (pm[0] == "OK" and pm[1] == expect):
                     improved.append({"route": route, "spec": spec["q"] + spec["att"] + spec["comp"], "impl": g[:200], "model": m[:200]})
+                    continue
+                # Appendix A.2: a filter list that raises on some stored object has no defined answer; the shortcuts
+                # decide whether that object is looked at.  A filesystem answer that raises exactly as the scan of
+                # everything raises (memory route of the model) where the model's pruned search happens not to is
+                # within the theorem (opt_raises_only_if_scan_does), not a disagreement.
+                if not ordered and pg[0] == "EXC" and pm[0] == "OK" and mm == g and got["md"] == g:
+                    scan_raises.append({"route": route, "spec": spec["q"] + spec["att"] + spec["comp"], "impl": g, "model": m[:200]})
                     continue
                 dis.append({"route": route, "spec": {kk: spec[kk] for kk in ("q", "att", "comp", "wrap", "bare", "none") if kk in spec},
                             "impl": g[:400], "model": m[:400],
@@ -1169,9 +1192,11 @@ def check(run):
     try:
         model = run_model([c for c, _ in good], mode, om)
         total = 0
-        improved = []
+        improved, scan_raises = [], []
         for (c, r), m in zip(good, model):
-            total += compare(c, r, m, dis, improved)
+            total += compare(c, r, m, dis, improved, scan_raises)
+            total += compare_gets(c, r, m, dis)
+        run.coverage["raises_as_the_scan_where_model_search_does_not"] = {"count": len(scan_raises), "first": scan_raises[:3]}
         run.coverage["correspondence_comparisons"] = total
         run.coverage["correspondence_disagreements"] = len(dis)
         run.coverage["implementation_better_than_model"] = {"count": len(improved), "first": improved[:3]}
